@@ -44,7 +44,9 @@ func verifC02Liquidity(op int) {
 	}
 	now, deadline := verifInt64("now"), verifInt64("deadline")
 	verifAssume(now >= 0 && now < 1<<40 && deadline < 1<<40)
-	ctx := e.ctx.WithBlockTime(time.Unix(now, 0))
+	// block times carry nanoseconds: the block may lie inside the deadline's second, just after it
+	nanos := int64(verifChoice("halfSecondLater", 2)) * 500000000
+	ctx := e.ctx.WithBlockTime(time.Unix(now, nanos))
 	srv := NewMsgServerImpl(e.k)
 	accts := map[string]sdk.AccAddress{"sender": e.sender, "other": e.other, "pool": poolAddr,
 		"module": vModuleAddr(types.ModuleName), "feecol": vModuleAddr(csFeeCollector), "holder": e.holder}
@@ -90,7 +92,7 @@ func verifC02Liquidity(op int) {
 	after := e.sheet(accts, denoms)
 	d := func(k string) *big.Int { return csDelta(before, after, k) }
 	neg := func(x *big.Int) *big.Int { return new(big.Int).Neg(x) }
-	if now > deadline {
+	if now > deadline || (now == deadline && nanos > 0) {
 		verifCover("deadline-passed")
 		verifAssert(err != nil, "liquidity message after its deadline is refused")
 	}
